@@ -328,7 +328,9 @@ package cache
 //@   ensures [C07.delete.repok] repOK(c)
 //@   modifies M|map[uint64]*TraitEntry|* G|removed @stat @log
 
-// Load / Store are Read / Write with the background context.
+// Load / Store are Read / Write with the background context. Walk is verified inside Dump (which is Walk with the
+// gob encoder as callback): that every entry is visited exactly once and the count is right are obligations of the
+// Dump contracts, flagged to count for C07 as well.
 
 //@ func (*shardedMap).Load
 //@   props C07
@@ -1223,6 +1225,7 @@ package cache
 
 //@ func (*ShardedMap).Dump
 //@   props C13
+//@   flag serves C07
 //@   requires c.shardedMap != nil && repOK(c.shardedMap) && keyedOK(c.shardedMap)
 //@   requires gobPos() <= gobLen() && gobLen() < 4611686018427387904
 //@   let l0 := old(gobLen())
@@ -1258,6 +1261,7 @@ package cache
 
 //@ func (*SyncMap).Dump
 //@   props C13
+//@   flag serves C07
 //@   requires c.syncMap != nil && sRepOK(c.syncMap) && sKeyedOK(c.syncMap)
 //@   requires gobPos() <= gobLen()
 //@   let l0 := old(gobLen())
@@ -1480,6 +1484,8 @@ package cache
 //@   requires forall j int :: 0 <= j && j < len(options) ==> options[j] != nil
 //@   ensures [C11.newtraitof.nonnil] result != nil
 //@   ensures [C11.newtraitof.janitor] hasJanitor(result.Trait) ==> calls("go:(*Trait).janitor") == 1 && arg("go:(*Trait).janitor", 1, 0) == result.Trait
+//@   ensures [C11.newtraitof.fresh] fresh(result)
+//@   modifies new:H|* G|alloc G|cnt|go:* G|arg|go:* G|cnt|options[] G|arg|options[]|* G|res|options[]|* @log G|chanclosed
 //@   replay janitorself
 
 // ---------------------------------------------------------------------------------------------------
@@ -1605,6 +1611,28 @@ package cache
 //@   ensures [C12.sm.evict.rank] forall s string :: old(sHas(c, s)) ==> 0 <= ssp(s) && (sHas(c, s) <==> ssp(s) >= result)
 //@   ensures [C12.sm.evict.count] result >= 0
 
+// The option closure the constructors hand to NewTrait: it installs THIS map's sweep, size and eviction routine
+// in the trait (the janitor of C11 / C12 calls them through these fields).
+//@ func NewShardedMap$1
+//@   props C11 C12
+//@   flag unshared t
+//@   requires t != nil
+//@   ensures [C11.new.wiring] isBound(t.DeleteExpired, "(*shardedMap).deleteExpired", *c) && isBound(t.Len, "(*shardedMap).Len", *c) && t.Evict == *evict
+//@   modifies H|Trait|*
+
+//@ func NewShardedMapOf$1
+//@   props C11 C12
+//@   flag unshared t
+//@   requires t != nil
+//@   ensures [C11.new.wiring] isBound(t.DeleteExpired, "(*shardedMapOf[V]).deleteExpired", *c) && isBound(t.Len, "(*shardedMapOf[V]).Len", *c) && t.Evict == *evict
+//@   modifies H|Trait|*
+//@ func NewSyncMap$1
+//@   props C11 C12
+//@   flag unshared t
+//@   requires t != nil
+//@   ensures [C11.new.wiring] isBound(t.DeleteExpired, "(*syncMap).deleteExpired", *c) && isBound(t.Len, "(*syncMap).Len", *c) && t.Evict == *evict
+//@   modifies H|Trait|*
+
 // Constructor of the sharded backend: a fresh, empty, well-formed map. (That the trait is wired to THIS map's
 // deleteExpired / Len / eviction routine of the configured strategy is not under contract: the option closure
 // runs inside NewTrait, and inlining NewTrait into this proof multiplies the paths beyond a quick check.)
@@ -1613,6 +1641,29 @@ package cache
 //@   flag noC16 constructor: the map becomes reachable by the janitor goroutine (through the option closure handed to NewTrait) before its InvalidationIndex field is set; the janitor only calls deleteExpired, Len and the eviction routine, none of which reads that field, but the field-class discipline cannot see that
 //@   requires forall j int :: 0 <= j && j < len(options) ==> options[j] != nil
 //@   ensures [C07.new.rep] result != nil && result.shardedMap != nil && repOK(result.shardedMap) && (forall h uint64 :: !hasH(result.shardedMap, h))
+//@   oncall NewTrait [C12.new.strategy] (cfg.EvictionStrategy == EvictMostExpired ==> isBound(evict, "(*shardedMap).evictMostExpired", c))
+//@       && (cfg.EvictionStrategy != EvictMostExpired ==> isBound(evict, "(*shardedMap).evictLeastCounter", c))
+//@       && len(callarg1) == 1 && isFunc(callarg1[0], "NewShardedMap$1")
 //@   loop 1 invariant [C07.new.buckets] 0 <= i && i <= 128 && (forall j int :: 0 <= j && j < i ==> c.hashedBuckets[j].data != nil && len(c.hashedBuckets[j].data) == 0)
 //@       && (forall j int :: forall k int :: 0 <= j && j < k && k < i ==> c.hashedBuckets[j].data != c.hashedBuckets[k].data) && fresh(c)
 //@       && (forall j int :: forall h uint64 :: 0 <= j && j < i ==> !has(c.hashedBuckets[j].data, h))
+
+// The other two constructors: the eviction routine handed to the trait follows the configured strategy, and the
+// option closure is the one above.
+//@ func NewSyncMap
+//@   props C12
+//@   flag noC16 constructor: same reason as NewShardedMap
+//@   requires forall j int :: 0 <= j && j < len(options) ==> options[j] != nil
+//@   ensures [C12.new.sm.nonnil] result != nil && result.syncMap != nil
+//@   oncall NewTrait [C12.new.strategy] (cfg.EvictionStrategy == EvictMostExpired ==> isBound(evict, "(*syncMap).evictMostExpired", c))
+//@       && (cfg.EvictionStrategy != EvictMostExpired ==> isBound(evict, "(*syncMap).evictLeastCounter", c))
+//@       && len(callarg1) == 1 && isFunc(callarg1[0], "NewSyncMap$1")
+//@ func NewShardedMapOf
+//@   props C12
+//@   flag noC16 constructor: same reason as NewShardedMap
+//@   requires forall j int :: 0 <= j && j < len(options) ==> options[j] != nil
+//@   ensures [C12.new.of.nonnil] result != nil && result.shardedMapOf != nil
+//@   loop 1 invariant [C12.new.of.i] 0 <= i && i <= 128 && c != nil
+//@   oncall NewTraitOf [C12.new.strategy] (cfg.EvictionStrategy == EvictMostExpired ==> isBound(evict, "(*shardedMapOf[V]).evictMostExpired", c))
+//@       && (cfg.EvictionStrategy != EvictMostExpired ==> isBound(evict, "(*shardedMapOf[V]).evictLeastCounter", c))
+//@       && len(callarg1) == 1 && isFunc(callarg1[0], "NewShardedMapOf$1")
